@@ -287,6 +287,10 @@ C09v(line, pre) ==
                   /\ (line.gauges[g].cpuCap # SumSeq(SetToSortedSeq(UntSet(pre, g)), LAMBDA n : V(pre, g)[n].cpu)
                       \/ line.gauges[g].memCap # SumSeq(SetToSortedSeq(UntSet(pre, g)), LAMBDA n : V(pre, g)[n].mem))
                THEN {<<"C09", "capacity-not-over-untainted-uncordoned", g, "">>} ELSE {})
+         \cup (IF "gauges" \in DOMAIN line /\ g \in DOMAIN line.gauges /\ line.gauges[g].nAll >= 0 /\ ListedOK(line, g)
+                  /\ (line.gauges[g].nCord # Cardinality({n \in Listed(pre, g) : V(pre, g)[n].cordoned})
+                      \/ line.gauges[g].nUnt # Cardinality(UntSet(pre, g)))
+               THEN {<<"C09", "cordoned-node-counted-as-schedulable", g, "">>} ELSE {})
         : g \in Groups(pre)}
 C09f(line, pre) ==
   UNION {IF Dry(pre, g) \/ ~ListedOK(line, g) THEN {} ELSE
